@@ -301,7 +301,27 @@ pub struct RlnSut {
     pub depth: usize,
     pub config: String,
     pub label: String,
+    /// batch-like calls made so far (every third one carries stale bytes after the declared leaf vector)
+    pub batch_calls: usize,
 }
+
+/// A leaf buffer as a caller with an over-allocated or re-used buffer would hand it over: the declared vector followed
+/// by stale bytes (whole elements, a fragment, or both). The declared count says how many leaves the request has.
+#[cfg(not(feature = "stateless"))]
+fn with_slack(mut b: Vec<u8>, k: usize) -> Vec<u8> {
+    match k % 3 {
+        0 => b.extend([0x01u8; 32]),
+        1 => {
+            b.extend([0x02u8; 96]);
+            b.extend([0x03u8; 5]);
+        }
+        _ => b.extend([0x04u8; 7]),
+    }
+    b
+}
+
+pub static SLACK_CALLS: std::sync::atomic::AtomicU64 = std::sync::atomic::AtomicU64::new(0);
+pub static SLACK_REFUSED: std::sync::atomic::AtomicU64 = std::sync::atomic::AtomicU64::new(0);
 
 #[cfg(not(feature = "stateless"))]
 pub fn backend_name() -> &'static str {
@@ -318,7 +338,7 @@ pub fn backend_name() -> &'static str {
 impl RlnSut {
     pub fn new(depth: usize, config: &str) -> Result<Self, String> {
         match catch(|| rln::public::RLN::new(depth, std::io::Cursor::new(config.to_string()))) {
-            Ok(Ok(rln)) => Ok(RlnSut { rln, depth, config: config.into(), label: format!("rln-{}", backend_name()) }),
+            Ok(Ok(rln)) => Ok(RlnSut { rln, depth, config: config.into(), label: format!("rln-{}", backend_name()), batch_calls: 0 }),
             Ok(Err(e)) => Err(format!("RLN::new: {e}")),
             Err(p) => Err(format!("RLN::new panicked: {}", p.msg)),
         }
@@ -340,15 +360,41 @@ impl Sut for RlnSut {
             TOp::Set(i, v) => wrap(catch(|| r.set_leaf(*i, Cursor::new(codec::enc_fr(v))))),
             TOp::Delete(i) => wrap(catch(|| r.delete_leaf(*i))),
             TOp::Append(v) => wrap(catch(|| r.set_next_leaf(Cursor::new(codec::enc_fr(v))))),
-            TOp::Range(s, vs) => wrap(catch(|| r.set_leaves_from(*s, Cursor::new(codec::enc_vec_fr(vs))))),
-            TOp::Batch(s, vs, rm) => {
-                if rm.iter().any(|x| *x > 255) {
-                    return Out::Unsupported;
+            TOp::Range(..) | TOp::Batch(..) | TOp::Init(..) => {
+                if let TOp::Batch(_, _, rm) = op {
+                    if rm.iter().any(|x| *x > 255) {
+                        return Out::Unsupported;
+                    }
                 }
-                let idx: Vec<u8> = rm.iter().map(|x| *x as u8).collect();
-                wrap(catch(|| r.atomic_operation(*s, Cursor::new(codec::enc_vec_fr(vs)), Cursor::new(codec::enc_vec_u8(&idx)))))
+                self.batch_calls += 1;
+                let slack = self.batch_calls % 3 == 2;
+                let k = self.batch_calls / 3;
+                let mut call = |slack: bool| -> Out {
+                    let lv = |vs: &Vec<Fr>| if slack { with_slack(codec::enc_vec_fr(vs), k) } else { codec::enc_vec_fr(vs) };
+                    match op {
+                        TOp::Range(s, vs) => wrap(catch(|| r.set_leaves_from(*s, Cursor::new(lv(vs))))),
+                        TOp::Batch(s, vs, rm) => {
+                            let idx: Vec<u8> = rm.iter().map(|x| *x as u8).collect();
+                            wrap(catch(|| r.atomic_operation(*s, Cursor::new(lv(vs)), Cursor::new(codec::enc_vec_u8(&idx)))))
+                        }
+                        TOp::Init(vs) => wrap(catch(|| r.init_tree_with_leaves(Cursor::new(lv(vs))))),
+                        _ => unreachable!(),
+                    }
+                };
+                if !slack {
+                    return call(false);
+                }
+                // the request is the declared vector: it is carried out with exactly the declared leaves, or the
+                // buffer is refused as malformed - then nothing may have changed and the plain request follows
+                SLACK_CALLS.fetch_add(1, std::sync::atomic::Ordering::Relaxed);
+                match call(true) {
+                    Out::Err(_) => {
+                        SLACK_REFUSED.fetch_add(1, std::sync::atomic::Ordering::Relaxed);
+                        call(false)
+                    }
+                    o => o,
+                }
             }
-            TOp::Init(vs) => wrap(catch(|| r.init_tree_with_leaves(Cursor::new(codec::enc_vec_fr(vs))))),
             TOp::Reset => wrap(catch(|| r.set_tree(self.depth))),
             TOp::ComputeRoot => Out::Unsupported,
             TOp::Reopen => Out::Unsupported,
